@@ -86,3 +86,12 @@ claim("C15", "other", "path counting, CFG cut/must-pass on the authentication ed
       "Decides the call discipline of TCP metrics on all paths: open reported at most once (exactly once with metrics configured) and its metrics object handed to the handler; AddClosed exactly once on every path before the client Close, with status \"OK\" only on the nil edge and otherwise the handler error's Status, carrying this connection's counters; "
       "AddAuthenticated only on the success edge, on every path from it, at most once, with the authenticator's id, before further processing; AddProbe exactly once per authentication failure with the byte counter read after the drain; connections measured into the right counter pairs; the wrapper counts exactly the returned counts; label arity and direction mapping agree.",
       "Not decided: numeric equality of counters with bytes on the wire.", "DESIGN.md §4 C15")
+
+claim("C09", "other", "value provenance with loop-iteration identity (range sources), CFG cut on the duplicate test, loop-shape check of the key search",
+      "Decides for the configuration start code: every serving goroutine pairs a listener and a service created in the same iteration of the configuration loop, whose address and key material derive from the same range element (same services entry / same legacy (port, list) tuple); every key list is created per iteration and reaches exactly one WithCiphers; each listener is served once; "
+      "the per-service list is built by a forward range that skips a key exactly when (Cipher, Secret) is already in a per-call set, pushes in order, records the pair after pushing and builds the entry from the same key element; legacy keys are filed under their own port; the trial decryption tries every key with that key's own header size.",
+      "Not decided: YAML decoding, run-time authentication results (C01/C03).", "DESIGN.md §4 C09")
+claim("C20", "other", "whole-module forward string taint (field-based, interprocedural over the call graph) + CFG cut/must-pass on the classification edges",
+      "Decides: no string derived from an address (String() of address types unless provably LocalAddr(), SplitHostPort/JoinHostPort, formatting of address or error values) or from an error text reaches a label value, metric name or help of any Prometheus call, following def-use, fields, cells, varargs, parameters and results over resolved call edges; every connection-error status is a constant; "
+      "the location database is consulted only on the enabled / parsed / global-unicast edges, XL, XD, ZZ and XA are assigned on every path of exactly their edges, nothing is assigned when disabled, and the address helper parses before any lookup; label arity agrees with the vectors.",
+      "Not decided: contents of database answers; taint carried by non-string values formatted outside the module.", "DESIGN.md §4 C20")
